@@ -202,6 +202,10 @@ type c19Event struct {
 type c19Case struct {
 	Events []c19Event `json:"events"`
 	Probe  bool       `json:"behaviour_probe"`
+	// Warm: the probe document (with its included file) was opened, analysed and
+	// closed once before the configuration events (caches are filled under the
+	// earlier settings)
+	Warm bool `json:"document_analysed_before_the_events"`
 }
 
 // observed effective settings, normalised to the reference representation
@@ -260,6 +264,12 @@ func c19Run(c *core.Ctx, dir string, cs c19Case) (key string) {
 	}
 	caps := r.Result
 	fail("initialized", s.Initialized())
+	if cs.Probe && cs.Warm {
+		wu := wire.URI(filepath.Join(dir, "probe.journal"))
+		s.DidOpen(wu, c19ProbeText())
+		s.Call("textDocument/completion", wire.DocPos(wu, 3, 0))
+		s.DidClose(wu)
+	}
 	for _, e := range events {
 		var v any
 		_ = json.Unmarshal([]byte(e.Payload), &v)
@@ -330,21 +340,28 @@ func c19PayloadClass(evs []c19Event) string {
 	return "bare section"
 }
 
-// c19Probe checks that the settings are effective through behaviour.
-func c19Probe(c *core.Ctx, s *wire.Session, dir string, ref c19Settings, legal map[string]bool, caps string, atInit bool, cs c19Case) {
-	viol := func(what, detail string) {
-		c.Violate("behaviour|"+what, "recognised values take effect on subsequent behaviour", fmt.Sprintf("events %s\n%s\nexpected settings %s", core.J(cs.Events), detail, ref), cs)
-	}
-	b := func(k string) bool { v, _ := ref[k].(bool); return v }
-	n := func(k string) int { v, _ := ref[k].(int64); return int(v) }
-	uri := wire.URI(filepath.Join(dir, "probe.journal"))
+func c19ProbeText() string {
 	var doc strings.Builder
 	doc.WriteString("include big.journal\n\naccount expenses:declared\ncommodity 1.000,00 EUR\n\n")
 	for i := 0; i < 8; i++ {
 		fmt.Fprintf(&doc, "2001-01-%02d payee%d\n    expenses:food%d  1 EUR\n    assets:a-much-longer-account-name%d  -1 EUR\n\n", i+1, i, i, i)
 	}
 	doc.WriteString("2001-02-01 unbalanced\n    expenses:declared  1 USD\n    zzz:undeclared  -2 USD\n\n2001-03-01 typing\n    \n")
-	text := doc.String()
+	return doc.String()
+}
+
+// c19Probe checks that the settings are effective through behaviour.
+func c19Probe(c *core.Ctx, s *wire.Session, dir string, ref c19Settings, legal map[string]bool, caps string, atInit bool, cs c19Case) {
+	viol := func(what, detail string) {
+		if cs.Warm {
+			what += " (document analysed before the events)"
+		}
+		c.Violate("behaviour|"+what, "recognised values take effect on subsequent behaviour", fmt.Sprintf("events %s\n%s\nexpected settings %s", core.J(cs.Events), detail, ref), cs)
+	}
+	b := func(k string) bool { v, _ := ref[k].(bool); return v }
+	n := func(k string) int { v, _ := ref[k].(int64); return int(v) }
+	uri := wire.URI(filepath.Join(dir, "probe.journal"))
+	text := c19ProbeText()
 	s.DidOpen(uri, text)
 	lines := strings.Split(text, "\n")
 	typing := len(lines) - 2
@@ -555,7 +572,7 @@ func checkC19(c *core.Ctx) {
 	if c.Thorough() {
 		depth = 4
 	}
-	c.Bound("sequences", fmt.Sprintf("BFS over <= %d configuration events from a %d-payload menu, behaviour probed after every event", depth, len(menu)))
+	c.Bound("sequences", fmt.Sprintf("BFS over <= %d configuration events from a %d-payload menu, behaviour probed after every event, each sequence also with the probe document analysed once before the events", depth, len(menu)))
 	st := bfs.Search(len(menu), depth, 100000, "init", func(path []int) (string, bool) {
 		if c.NShards > 1 && path[0]%c.NShards != c.Shard {
 			return "", false
@@ -567,7 +584,12 @@ func checkC19(c *core.Ctx) {
 		if len(path) > 1 {
 			c.Res.Nontrivial++
 		}
-		return c19Run(c, dir, cs), true
+		key := c19Run(c, dir, cs)
+		// the same sequence from a non-initial state: caches filled before the events
+		warm := cs
+		warm.Warm = true
+		c19Run(c, dir, warm)
+		return key, true
 	}, c.Expired)
 	c.Res.States += st.States
 	c.Res.Transitions += st.Transitions
